@@ -2,7 +2,7 @@
 import ast
 
 from ..common import Ctx, U, AnalysisError
-from ..frontends import FRONTENDS, frontend_exec_paths, recv_paths, CONTEXT_EXPRS
+from ..frontends import recv_loop_iterations, FRONTENDS, frontend_exec_paths, recv_paths, CONTEXT_EXPRS
 from .c09 import r5_per_connection_framer
 
 TITLE = 'all server front-ends are behaviourally interchangeable'
@@ -55,6 +55,35 @@ def recv_table(fe, rps):
     return rows
 
 
+def r5_no_reset_on_clean_iteration(ck, cx):
+    """Stream front-ends keep the bytes of a split request until the next chunk arrives (the Twisted stream
+    front-end has no reset at all): on an iteration of the receive loop in which neither the transport read nor
+    the framer raised, the handler must not call framer.resetFrame() -- for every reachable value of the
+    loop-carried flag locals (computed as a fixpoint over the loop body)."""
+    ck.rule('R5', 'stream receive loops: no framer.resetFrame() on an iteration without a fault, for every reachable state of the loop-carried flags')
+    n = 0
+    for fe in FRONTENDS:
+        if fe[5] != 'stream':
+            continue
+        cls, f, loop, its = recv_loop_iterations(cx, fe)
+        if loop is None:
+            continue
+        ck.saw('functions', f.qn)
+        for state, paths in its:
+            for p in paths:
+                if any(ev.kind in ('raise', 'handler') for ev in p.ev):
+                    continue
+                n += 1
+                resets = [ev for ev in p.ev if ev.kind == 'call' and isinstance(ev.node.func, ast.Attribute) and ev.node.func.attr == 'resetFrame'
+                          and U(ev.node.func.value) == 'self.framer']
+                st = ', '.join('%s=%s' % kv for kv in sorted(state.items(), key=str)) or '-'
+                ck.ob('R5', f.qn, 'no framer reset on a fault-free iteration (flags on entry: %s)' % st, not resets,
+                      detail='reset-on-clean-iteration %s' % st, loc=cx.floc(f, resets[0].node) if resets else cx.floc(f),
+                      message='%s: an iteration that starts with %s and in which nothing fails still calls framer.resetFrame(): the '
+                              'first part of a request split over two chunks is thrown away (the other stream front-ends keep it)' % (fe[0], st))
+    ck.floor('R5', n, 6, 'fault-free iteration paths')
+
+
 def run(ck, tier):
     cx = Ctx()
     ck.rule('R1', 'execute summaries (exception->response map, id copies, send count, context key) equal those of the reference front-end')
@@ -90,6 +119,7 @@ def run(ck, tier):
         ck.ob('R3', rf.qn, 'receive-loop table equals %s' % REFERENCE, not rdiff, detail='receive-differs ' + '; '.join(rdiff)[:300], loc=cx.floc(rf),
               message='%s receive loop differs from %s: %s' % (fe[0], REFERENCE, rdiff))
     ck.floor('R1', n, 6, 'front-ends compared')
+    ck.guard(r5_no_reset_on_clean_iteration, ck, cx)
     sub = type(ck)(ck.pid, ck.tier)
     r5_per_connection_framer(sub, cx)
     for o in sub.obligations:
